@@ -7,3 +7,11 @@ package config
 func VerifRegisterAsDatabase() error {
 	return registerAsDatabase()
 }
+
+// VerifUnregister removes an option from the registry again (the harness
+// registers two options per cell and must not let the registry grow).
+func VerifUnregister(key string) {
+	optionsLock.Lock()
+	defer optionsLock.Unlock()
+	delete(options, key)
+}
